@@ -161,6 +161,7 @@ namespace
             // cfg[4]: bit 0 no signal callback registered (1 run in 6); bits 1..2 what the caller-supplied storage held before init
             p.cfg = {cap, H, r.chance(2, 3) ? 0 : (int64_t)r.range(1, 3), r.chance(1, 8) ? 0 : 1, (int64_t)((r.chance(1, 6) ? 1 : 0) | (r.below(4) << 1) | (r.chance(1, 4) ? 8 : 0))}; // bit 3: the execute callback switches the echo for some lines
             int n = (int)r.range(4, tier == THOROUGH ? 200 : 120);
+            if (r.chance(1, 40)) n *= 25; // a long history: what only accumulates over hundreds or thousands of operations
             int style = (int)r.below(3); // 0 mixed, 1 edit-heavy, 2 history-heavy
             for (int i = 0; i < n; i++)
             {
@@ -492,6 +493,7 @@ namespace
             int cap = (int)r.range(2, 16);
             p.cfg = {cap, (int64_t)r.below(3)}; // cfg[1]: 0 C sline inside struct readline, 1 igris::sline wrapper, 2 igris::readline (typed keys + linecpy)
             int n = (int)r.range(4, tier == THOROUGH ? 120 : 60);
+            if (r.chance(1, 40)) n *= 25; // a long history: what only accumulates over hundreds or thousands of operations
             for (int i = 0; i < n; i++) p.ops.push_back({(int64_t)r.below(L_N), (int64_t)r.below(2 * cap + 2), (int64_t)r.below(95)});
             return p;
         }
